@@ -37,3 +37,16 @@ typedef struct _q120_ntt_precomp {
   uint64_t input_bit_size;
   uint64_t output_bit_size;
 } q120_ntt_precomp;
+
+#ifdef SPQLIOS_VERIF
+// verification hook (off by default): stage trace of the NTT/iNTT drivers.
+// kind: 0 = input, 1 = after the twiddle-only pass, 2 = after a butterfly pass over [begin,end), 3 = output
+typedef void (*spqlios_verif_ntt_trace_fn)(int inverse, int kind, uint64_t nn, const void* begin, const void* end,
+                                           const q120_ntt_step_precomp* itData, const void* powomega,
+                                           const q120_ntt_precomp* precomp);
+EXPORT_DECL __thread spqlios_verif_ntt_trace_fn spqlios_verif_ntt_trace;
+#define SPQLIOS_VERIF_NTT_TRACE(...) \
+  if (spqlios_verif_ntt_trace) spqlios_verif_ntt_trace(__VA_ARGS__)
+#else
+#define SPQLIOS_VERIF_NTT_TRACE(...)
+#endif
